@@ -232,7 +232,7 @@ func NewWorld(spec *WorldSpec, schedSeed uint64, policy int, faults []Fault) *Wo
 		start: time.Now(), redisSync: time.Now()}
 	curNet = w.Net
 	w.Net.DialFault = func(addr string) error {
-		if w.faultAt("net.dial") == "refused" {
+		if w.faultAt("net.dial") != "" {
 			w.countFault("dial-refused")
 			return errors.New("sim: connection refused")
 		}
